@@ -350,4 +350,22 @@ U16 = Universe(
     sources=[_m("a")],
 )
 
-ALL = {u.name.split("-")[0]: u for u in (U10, U11, U12, U13, U14, U15, U16, U1, U2, U3, U4, U4b, U5, U6, U7, U8, U9)}
+# U17 plugin: a local plugin decides the type of lib.magic(); editing the PLUGIN's code (nothing else) changes the
+# diagnostics of main.py.  The global @plugins_snapshot record is what ties module records to the plugin code.
+_PLUG = ("from mypy.plugin import Plugin\nclass P(Plugin):\n    def get_function_hook(self, fullname):\n"
+         "        if fullname == 'lib.magic':\n"
+         "            return lambda ctx: ctx.api.named_generic_type('builtins.{t}', [])\n        return None\n"
+         "def plugin(version):\n    return P\n")
+U17 = Universe(
+    name="U17-plugin",
+    files={
+        "tmp/main.py": ["import lib\nimport other\nx: int = lib.magic()\n"],
+        "tmp/other.py": ["import lib\ny: str = lib.magic()\n", "import lib\ny: str = lib.magic()\nz: int = ''\n"],
+        "tmp/lib.py": ["def magic() -> object: ...\n"],
+        "tmp/plug.py": [_PLUG.format(t="int"), _PLUG.format(t="str")],
+    },
+    sources=[_m("main")],
+    overrides={"plugins": ["tmp/plug.py"], "config_file": "mypy.ini"},  # plugins load only with a config file
+)
+
+ALL = {u.name.split("-")[0]: u for u in (U10, U11, U12, U13, U14, U15, U16, U17, U1, U2, U3, U4, U4b, U5, U6, U7, U8, U9)}
